@@ -66,6 +66,49 @@ Section Paths.
     - discriminate.
   Qed.
 
+  (** withdrawals: no path, seen-by maintained exactly as for advertisements,
+      and the origin is always in it *)
+  Definition wpath_msg (m : msg) : Prop :=
+    path_msg m /\ In (a_origin (m_adv m)) (a_seenby (m_adv m)).
+
+  Lemma P_worig : forall n (rs : list route) sq p,
+    (N.to_nat n < K)%nat ->
+    path_msg {| m_from := n; m_to := p;
+          m_adv := {| a_origin := n; a_seq := sq; a_routes := rs; a_path := []; a_seenby := [n] |} |}.
+  Proof.
+    intros n rs sq p HnK. unfold path_msg. simpl.
+    split; [constructor|]. split; [intros x []|]. split; [constructor; [simpl; tauto|constructor]|].
+    split; [intros x [E|[]]; subst; auto|discriminate].
+  Qed.
+
+  Lemma P_wfwd : forall from n a p,
+    (N.to_nat n < K)%nat ->
+    path_msg {| m_from := from; m_to := n; m_adv := a |} ->
+    memN n (a_seenby a) = false ->
+    path_msg {| m_from := n; m_to := p; m_adv := forward_w n a |}.
+  Proof.
+    intros from n a p HnK [H1 [H2 [H3 [H4 H5]]]] Hsb. apply memN_false_iff in Hsb.
+    unfold path_msg. simpl in *.
+    split; [constructor|]. split; [intros x []|]. split; [apply NoDup_app_single; auto|]. split.
+    - intros x Hx. rewrite in_app_iff in Hx. simpl in Hx. destruct Hx as [Hx|[E|[]]]; subst; auto.
+    - destruct (a_seenby a); simpl; discriminate.
+  Qed.
+
+  Lemma P_worig' : forall n (rs : list route) sq p,
+    (N.to_nat n < K)%nat ->
+    wpath_msg {| m_from := n; m_to := p;
+          m_adv := {| a_origin := n; a_seq := sq; a_routes := rs; a_path := []; a_seenby := [n] |} |}.
+  Proof. intros. split; [apply P_worig; auto|simpl; auto]. Qed.
+
+  Lemma P_wfwd' : forall from n a p,
+    (N.to_nat n < K)%nat ->
+    wpath_msg {| m_from := from; m_to := n; m_adv := a |} ->
+    memN n (a_seenby a) = false ->
+    wpath_msg {| m_from := n; m_to := p; m_adv := forward_w n a |}.
+  Proof.
+    intros from n a p HnK [H1 H2] Hsb. split; [eapply P_wfwd; eauto|]. simpl in *. apply in_or_app. auto.
+  Qed.
+
   (** the stored paths name agents only *)
   Definition path_entry2 (n : node) (e : entry) : Prop :=
     path_entry n e /\ forall x, In x (e_path e) -> (N.to_nat x < K)%nat.
@@ -100,11 +143,11 @@ Section Paths.
   Qed.
 
   Theorem path_inv_run : forall ops,
-    sinv K path_entry2 (fun _ => True) path_msg (run cf (init K) ops).
+    sinv K path_entry2 (fun _ => True) path_msg wpath_msg (run cf (init K) ops).
   Proof.
     intros ops.
-    apply (run_sinv cf K path_entry2 (fun _ => True) path_msg (fun _ => True)); auto; intros;
-      try solve [eapply P_store2; eauto | eapply P_fwd; eauto | eapply P_ann; eauto | eapply P_replay; eauto].
+    apply (run_sinv cf K path_entry2 (fun _ => True) path_msg wpath_msg (fun _ => True)); auto; intros;
+      try solve [eapply P_store2; eauto | eapply P_fwd; eauto | eapply P_ann; eauto | eapply P_replay; eauto | eapply P_worig'; eauto | eapply P_wfwd'; eauto].
     - split; auto. unfold path_entry2, path_entry. simpl. repeat split; try tauto. constructor.
     - apply Forall_forall. auto.
   Qed.
@@ -113,10 +156,12 @@ Section Paths.
     In m (snd (fst (step cf (run cf (init K) ops) o))) -> path_msg m.
   Proof.
     intros ops o m Hin.
-    apply (step_ssent cf K path_entry2 (fun _ => True) path_msg (fun _ => True)) with (ops := ops) (o := o); auto; intros;
-      try solve [eapply P_store2; eauto | eapply P_fwd; eauto | eapply P_ann; eauto | eapply P_replay; eauto].
-    - split; auto. unfold path_entry2, path_entry. simpl. repeat split; try tauto. constructor.
-    - apply Forall_forall. auto.
+    assert (H : (is_w (m_adv m) = false -> path_msg m) /\ (is_w (m_adv m) = true -> wpath_msg m)).
+    { apply (step_ssent cf K path_entry2 (fun _ => True) path_msg wpath_msg (fun _ => True)) with (ops := ops) (o := o); auto; intros;
+        try solve [eapply P_store2; eauto | eapply P_fwd; eauto | eapply P_ann; eauto | eapply P_replay; eauto | eapply P_worig'; eauto | eapply P_wfwd'; eauto].
+      - split; auto. unfold path_entry2, path_entry. simpl. repeat split; try tauto. constructor.
+      - apply Forall_forall. auto. }
+    destruct H as [A B]. destruct (is_w (m_adv m)); auto. apply B. auto.
   Qed.
 End Paths.
 
@@ -167,15 +212,22 @@ Theorem forward_extends_seenby : forall cf s i dup m m',
   m_from m' = m_to m.
 Proof.
   intros cf s i dup m m' Nth Hin. simpl in Hin. rewrite Nth in Hin.
-  destruct (handle cf (with_flight s (if dup then st_flight s else remove_nth (st_flight s) i))
-                   (m_to m) (m_from m) (m_adv m)) as [[s2 out] res] eqn:E.
-  simpl in Hin. unfold handle in E.
-  destruct (get _ (m_to m)); [|inversion E; subst; destruct Hin].
-  destruct (seen_has _ _ _); [inversion E; subst; destruct Hin|].
-  destruct (memN _ _); [inversion E; subst; destruct Hin|].
-  destruct (over_limit _ _); [inversion E; subst; destruct Hin|].
-  destruct (at_limit _ _); [inversion E; subst; destruct Hin|].
-  inversion E; subst. apply in_map_iff in Hin. destruct Hin as [p [Hp _]]. subst. simpl. auto.
+  set (s1 := with_flight s (if dup then st_flight s else remove_nth (st_flight s) i)) in *.
+  destruct (is_w (m_adv m)).
+  - destruct (handle_w s1 (m_to m) (m_from m) (m_adv m)) as [[s2 out] res] eqn:E.
+    simpl in Hin. unfold handle_w in E.
+    destruct (get _ (m_to m)); [|inversion E; subst; destruct Hin].
+    destruct (seen_has _ _ _); [inversion E; subst; destruct Hin|].
+    destruct (memN _ _); [inversion E; subst; destruct Hin|].
+    inversion E; subst. apply in_map_iff in Hin. destruct Hin as [p [Hp _]]. subst. simpl. auto.
+  - destruct (handle cf s1 (m_to m) (m_from m) (m_adv m)) as [[s2 out] res] eqn:E.
+    simpl in Hin. unfold handle in E.
+    destruct (get _ (m_to m)); [|inversion E; subst; destruct Hin].
+    destruct (seen_has _ _ _); [inversion E; subst; destruct Hin|].
+    destruct (memN _ _); [inversion E; subst; destruct Hin|].
+    destruct (over_limit _ _); [inversion E; subst; destruct Hin|].
+    destruct (at_limit _ _); [inversion E; subst; destruct Hin|].
+    inversion E; subst. apply in_map_iff in Hin. destruct Hin as [p [Hp _]]. subst. simpl. auto.
 Qed.
 
 (** Termination: a chain of successive forwards (each frame made from the
